@@ -412,6 +412,25 @@ class Verifier:
                 interp.setattr_(ev(objexpr), attr, val)
             else:
                 env.vars[name] = val
+        # frame of the loop: whatever else the body assigns is unknown after an arbitrary number of iterations too --
+        # locals the contract does not describe are havocked by their type (a counter becomes any integer), object fields
+        # and containers modified in the loop but not described make the instance out of reach (never silently kept)
+        declared = set(spec.get("havoc", {}))
+        for name in sorted(self._loop_assigned_names(node)):
+            if name in declared or name not in env.vars:
+                continue
+            cur = env.vars[name]
+            if isinstance(cur, bool) or isinstance(cur, SBool):
+                env.vars[name] = SBool(cx.fresh_bool(f"{name}_L{ordinal}"))
+            elif isinstance(cur, (int, SInt)):
+                env.vars[name] = SInt(cx.fresh_int(f"{name}_L{ordinal}"))
+            elif cur is None:
+                continue
+            else:
+                raise OutOfReach(f"loop {ordinal} modifies `{name}` which the loop contract does not describe")
+        for attr in sorted(self._loop_assigned_attrs(node)):
+            if attr not in declared:
+                raise OutOfReach(f"loop {ordinal} modifies `{attr}` which the loop contract does not describe")
         for inv in spec.get("invariant", ()):
             cx.assume(ops.truth_term(ev(inv)))
         if interp.truth(interp.eval(node.test, env)):
@@ -432,6 +451,47 @@ class Verifier:
             raise PathEnd()
         interp.exec_block(node.orelse, env)
         return None
+
+    @staticmethod
+    def _loop_targets(node):
+        out = []
+        for sub in ast.walk(node):
+            if isinstance(sub, (ast.FunctionDef, ast.Lambda, ast.ClassDef)):
+                continue
+            tg = []
+            if isinstance(sub, ast.Assign):
+                tg = sub.targets
+            elif isinstance(sub, (ast.AugAssign, ast.AnnAssign)):
+                tg = [sub.target]
+            elif isinstance(sub, (ast.For, ast.comprehension)):
+                tg = [sub.target]
+            elif isinstance(sub, ast.NamedExpr):
+                tg = [sub.target]
+            elif isinstance(sub, ast.With):
+                tg = [i.optional_vars for i in sub.items if i.optional_vars is not None]
+            for t in tg:
+                for e in ast.walk(t):
+                    if isinstance(e, (ast.Name, ast.Attribute, ast.Subscript)):
+                        out.append(e)
+        return out
+
+    def _loop_assigned_names(self, node):
+        return {e.id for e in self._loop_targets(node) if isinstance(e, ast.Name) and isinstance(e.ctx, ast.Store)}
+
+    def _loop_assigned_attrs(self, node):
+        out = set()
+        for e in self._loop_targets(node):
+            if isinstance(e, ast.Attribute) and isinstance(e.ctx, ast.Store):
+                try:
+                    out.add(ast.unparse(e))
+                except Exception:
+                    out.add("<attribute>")
+            elif isinstance(e, ast.Subscript) and isinstance(e.ctx, ast.Store):
+                try:
+                    out.add(ast.unparse(e.value) + "[...]")
+                except Exception:
+                    out.add("<item>")
+        return out
 
     # ------------------------------------------------------------------ obligations
     def check(self, name, goal, inputs_fn=None):
